@@ -53,18 +53,27 @@ structure Ctx where
   tmp    : List Err := []
   deriving Repr
 
+def Ctx.push (c : Ctx) (e : Err) : Ctx := { c with errors := c.errors ++ [e] }
+
 /-- `handle_error` (options.py:460-476): record, then raise unless collecting (or `max_errors` reached).
 Returns the new context and the exception raised, if any. -/
 def handleError (o : Opts) (c : Ctx) (e : Err) : Ctx × Option Err :=
-  let c1 : Ctx := { c with errors := c.errors ++ [e] }
-  if !o.collectErrors then (c1, some e)
+  if !o.collectErrors then (c.push e, some e)
   else match o.maxErrors with
-    | some m => if c1.errors.length ≥ m then (c1, some (.collected (c1.errors ++ c1.tmp))) else (c1, none)
-    | none => (c1, none)
+    | some m =>
+      if (c.push e).errors.length ≥ m then (c.push e, some (.collected ((c.push e).errors ++ (c.push e).tmp)))
+      else (c.push e, none)
+    | none => (c.push e, none)
 
 /-- `raise_error(); return value` (options.py:444-452) -/
 def raiseError {V : Type} (c : Ctx) (v : V) : Except Err V :=
   if c.errors.isEmpty && c.tmp.isEmpty then .ok v else .error (.collected (c.errors ++ c.tmp))
+
+/-- a `handle_error(e)` that is not inside a `try`, followed (if it returns) by `break … raise_error(); return value` -/
+def afterHandle {V : Type} (p : Ctx × Option Err) (v : V) : Except Err V :=
+  match p with
+  | (_, some e') => .error e'          -- `handle_error` raises out of logical_parse
+  | (c, none) => raiseError c v        -- `break`, then `raise_error()`
 
 /-- `self.options & options` (options.py:300-311) for the two option sets `logical_parse` builds -/
 def strictOpts (o : Opts) : Opts :=
@@ -94,10 +103,7 @@ def allLoop (o : Opts) : List (Arg V) → V → V × Option Err
 def logicalAll (as : List (Arg V)) (o : Opts) (v : V) : Except Err V :=
   match allLoop o as v with
   | (v', none) => raiseError {} v'
-  | (v', some e) =>
-    match handleError o {} e with
-    | (_, some e') => .error e'          -- `handle_error` raises out of logical_parse
-    | (c, none) => raiseError c v'       -- `break`, then `raise_error()`
+  | (v', some e) => afterHandle (handleError o {} e) v'
 
 /-! ### `|` (rule.py:376-423) -/
 
@@ -137,10 +143,7 @@ def xorLoop (o : Opts) (v : V) : List (Arg V) → Option V → List Err → Opti
 
 def logicalXor (as : List (Arg V)) (o : Opts) (v : V) : Except Err V :=
   match xorLoop o v as none [] with
-  | (_, tmp, true) =>
-    match handleError o { tmp := tmp } .oneOf with
-    | (_, some e) => .error e
-    | (c, none) => raiseError c v
+  | (_, tmp, true) => afterHandle (handleError o { tmp := tmp } .oneOf) v
   | (some r, _, false) => .ok r                   -- `clear_tmp_error(); value = result`
   | (none, tmp, false) => raiseError { tmp := tmp } v
 
